@@ -469,7 +469,12 @@ impl World {
         }
         if let Some(port) = self.fid_port.get(&id) {
             for e in 0..2 {
-                if self.view[e].handles.iter().any(|h| h.alive && h.port == Some(*port)) { return Some("stream still held"); }
+                // (an endpoint whose application still holds the stream and that has neither received nor sent a
+                // Reset for the id still has the flow in its table: it refuses a Connect on it and nothing of the
+                // held stream can act on a new one — no excuse there. Only after a Reset has passed is a held
+                // handle a leftover of a flow the endpoint has already let go of.)
+                let reset_passed = self.rst_in[e].contains(&id) || self.rst_out[e].contains(&id);
+                if reset_passed && self.view[e].handles.iter().any(|h| h.alive && h.port == Some(*port)) { return Some("stream still held"); }
             }
         }
         None
@@ -2191,8 +2196,19 @@ fn reopen_same_id_case(r: &mut Rng, focus: Focus) -> World {
             drain(&mut w);
         }
     }
-    // both ends let go of it
-    match r.below(4) {
+    // both ends let go of it — or, in the fifth variant, both finish it and only one lets go: the other keeps
+    // holding its (finished) stream, so the id is still in use there; it must refuse the Connect that takes the
+    // id again, and when it finally drops the old stream nothing may happen to any other stream
+    let mut holder: Option<usize> = None;
+    match r.below(5) {
+        4 => {
+            let (he, le) = if r.chance(1, 2) { (oe, pe) } else { (pe, oe) };
+            w.stim(he, &[s("shutdown"), s(0)]); drain(&mut w);
+            w.stim(le, &[s("shutdown"), s(0)]); drain(&mut w);
+            for e in 0..2 { w.stim(e, &[s("read"), s(0), s(4096)]); w.stim(e, &[s("read"), s(0), s(4096)]); }
+            w.stim(le, &[s("dropstream"), s(0)]);
+            holder = Some(he);
+        }
         0 => { w.stim(oe, &[s("dropstream"), s(0)]); drain(&mut w); w.stim(pe, &[s("read"), s(0), s(4096)]); w.stim(pe, &[s("dropstream"), s(0)]); }
         1 => { w.stim(pe, &[s("dropstream"), s(0)]); drain(&mut w); w.stim(oe, &[s("read"), s(0), s(4096)]); w.stim(oe, &[s("dropstream"), s(0)]); }
         2 => {
@@ -2203,14 +2219,19 @@ fn reopen_same_id_case(r: &mut Rng, focus: Focus) -> World {
         _ => { w.stim(oe, &[s("shutdown"), s(0)]); drain(&mut w); w.stim(pe, &[s("dropstream"), s(0)]); drain(&mut w); w.stim(oe, &[s("dropstream"), s(0)]); }
     }
     drain(&mut w);
-    // the id again, for a new stream opened by either side (its script yields the id once more)
-    let e2 = r.below(2) as usize;
+    // the id again, for a new stream opened by either side (its script yields the id once more); with a
+    // holder, by the side that let go
+    let e2 = match holder { Some(he) => 1 - he, None => r.below(2) as usize };
     let p2 = 1 - e2;
     let req2 = w.next_req; w.next_req += 1;
     w.stim(e2, &[s("open"), s(req2), hexd(&r.bytes(3)), s(1000 + req2)]);
     drain(&mut w);
     w.stim(p2, &[s("accept")]);
     drain(&mut w);
+    if let Some(he) = holder {
+        // now, or after some traffic on the new stream, the holder lets go of the old one
+        if r.chance(1, 2) && w.view[he].handles.first().is_some_and(|h| h.alive) { w.stim(he, &[s("dropstream"), s(0)]); drain(&mut w); }
+    }
     let tag2 = tag.wrapping_add(101);
     for round in 0..4 {
         for e in [e2, p2] {
@@ -2226,6 +2247,9 @@ fn reopen_same_id_case(r: &mut Rng, focus: Focus) -> World {
                 drain(&mut w);
             }
         }
+    }
+    if let Some(he) = holder {
+        if w.view[he].handles.first().is_some_and(|h| h.alive) { w.stim(he, &[s("dropstream"), s(0)]); drain(&mut w); }
     }
     // both writers of the new stream finish; both readers read to the end: what was written is what is read
     if r.chance(3, 4) {
